@@ -16,6 +16,7 @@ import Fundraising.Generated.Code.Match
     topay  <price> <amt> <sameDenom 0|1>        Bid.ConvertToPayingAmount
     sched <endTime> <n> (<release> <weight>)*   ValidateVestingSchedules   (1 = error)
     match <matchPrice> <supply> <nAllowed> (<bidder> <cap>)* <nLevels> (<price> <nBids> (<id> <bidder> <W|M> <amt>)*)*
+    bbp <n> (<price>)* out (<id>)*              types.BidsByPrice on bids 1…n (input order) given what types.SortBids returned
 -/
 open Fundraising Fundraising.Gen
 
@@ -114,6 +115,27 @@ def runLine (line : String) : String :=
         | .nofit => "nofit"
         | .panic => "panic"
       pure s!"gen {g} | model {m}"
+    | "bbp" =>
+      let n ← pNat
+      let prs ← pMany n pInt
+      let _ ← tok  -- "out"
+      let outIds ← pMany n pNat
+      let mk (id : Nat) (price : Int) : Bid :=
+        { auction := 0, id := id, bidder := 1, type := .many, price := price, denom := 0, amt := 1, matched := false }
+      let bids := (List.range n).map (fun i => mk (i + 1) (prs.getD i 0))
+      let out := outIds.map (fun id => mk id (prs.getD (id - 1) 0))
+      -- an enumeration of the map's keys (first occurrences, reversed: any order must do)
+      let keys := ((out.map (·.price)).eraseDups).reverse
+      let render (prices : List Dec) (by_ : Dec → Option (List Bid)) : String :=
+        s!"prices {showInts prices} levels " ++
+        " ; ".intercalate (prices.map (fun q => showInts (((by_ q).getD []).map (fun b => (b.id : Int))))) ++
+        s!" maplen {keys.length}"
+      let g := Gen.BidsByPrice bids out keys
+      -- the model: the stable price-descending arrangement of the input for books of at most 12 bids
+      -- (`sortBids`, what the executable model uses), of what SortBids returned for larger ones
+      let arr := if n ≤ 12 then sortBids bids else sortBids out
+      let mprices := distinctPrices arr
+      pure s!"gen {render g.1 g.2} | model {render mprices (fun q => some (arr.filter (fun b => decide (b.price = q))))}"
     | _ => failure
   match p.run ts with
   | some (r, _) => r
